@@ -26,6 +26,8 @@
 #define E_IOError 16
 #define E_SystemError 17
 #define E_DebugError 18
+/* length in bytes of the smallest unsigned integer class holding v (docs/format.md, Integer Encoding Class) */
+#define VT_LEN_UINT(v) ((v) <= 0x7fUL ? 1UL : (v) <= 0xffUL ? 2UL : (v) <= 0xffffUL ? 3UL : (v) <= 0xffffffffUL ? 5UL : 9UL)
 /* ghost index used instead of quantifiers over byte ranges (fixed but arbitrary) */
 unsigned long vt_k;
 #endif
